@@ -28,7 +28,7 @@ def main(tier, replay=None):
             fams.append(dict(name="limits-c%d-a%d" % (cl, an), opts=[M, "msgs=l3+r2", "concl=%d" % cl, "concr=%d" % cl, "announce=%d" % an, "signals=0", "verdicts=KZ", "reorder=1", "maxticks=3"], bounds="0,0,0,%d" % (0 if q else 1), total=1))
     fams.append(dict(name="limits-c250-a200", opts=[M, "msgs=l1", "concl=250", "concr=250", "announce=200", "signals=0"], bounds="0,0,0,0", total=0))
     fams.append(dict(name="limits-c200-a128", opts=[M, "msgs=l1", "concl=200", "concr=130", "announce=128", "signals=0"], bounds="0,0,0,0", total=0))
-    run_families(res, "C04", tier, fams)
+    plain_src = run_families(res, "C04", tier, fams)
     res.rule = ("same history exploration as C03 (real qmail-send/qmail-clean/qmail-queue under the virtual kernel) with the C04 monitors: at every "
                 "delivery command the named record must be T in the on-disk recipient list and have no outstanding attempt, outstanding attempts "
                 "per channel <= min(configured, announced), no attempt after a K/D report in crash-free histories (also with slow deliveries: time passing to the daemon's next deadline while attempts are outstanding; with single failing calls of qmail-send and qmail-clean; with every attempt deferred by default so that restarts find work on both channels), every completion mark lands on "
@@ -36,4 +36,5 @@ def main(tier, replay=None):
                 "configured {0,1,2,200,250} x announced {0,1,2,128,200,255}")
     res.assumptions = ["virtual kernel (appendix A)", "recipient addresses are pairwise distinct so that a delivery command identifies its record", "a mark lost with un-fsynced data is not counted against the code"]
     res.require_nonzero("evaluations", "marks_written", "reports_Z", "machine_crashes", "clean_stops", "clamp_checks", "local_attempts", "remote_attempts")
+    lib_conformance(res, rundir("C04lib"), plain_src, ['ctl', 'num', 'io'], tier, asan=False)
     return res.finish()
